@@ -77,7 +77,28 @@ CALLS = ["inc", "dbl", "neg", "sq", "mod3", "add10", "half", "ctx:a", "ctx:b"]
 PREDN = ["even", "odd", "pos", "lt5", "mod3", "true", "false"]
 ACCS = [["sum"], ["sum"], ["dsum"], ["mean"], ["mean0"], ["store", 1], ["store", 0],
         ["fccount", "c"], ["vmc", 0, 1], ["vmc", 1, 1], ["vmc", 0, 0], ["vmc", 1, 0],
-        ["vectorize"], ["hist"], ["groupby"]]
+        ["vectorize"], ["hist"], ["groupby"], ["listacc"], ["dictacc"]]
+
+
+class ListAcc(list):
+    """A user's accumulator built on a list (so it is iterable and has a length)."""
+
+    def fill(self, value):
+        self.append(gen._num(gen.data_of(value)))
+
+    def compute(self):
+        yield (sum(self), len(self))
+
+
+class DictAcc(dict):
+    """A user's accumulator built on a dict: a table of how often each value was seen."""
+
+    def fill(self, value):
+        key = gen._num(gen.data_of(value))
+        self[key] = self.get(key, 0) + 1
+
+    def compute(self):
+        yield sorted(self.items())
 
 
 def rand_slice(rng, nflow):
@@ -149,12 +170,28 @@ def cases(tier, seed):
         for p in ("false", "true", "even"):
             yield {"k": "chain", "pre": [["filter", p]], "acc": ["mean"], "post": [],
                    "flow": list(range(1, n + 1))}
+        # the accumulator alone (a bare branch of a Split), every accumulator kind
+        for acc in ACCS:
+            yield {"k": "chain", "pre": [], "acc": acc, "post": [], "flow": list(range(1, n + 1))}
     for i in range(NCHAIN[tier]):
         rng = gen.rng_for(seed, "C05chain", i)
         flow = gen.rand_flow(rng, 8)
         pre = [rand_pre_el(rng, len(flow)) for _ in range(rng.choice([0, 1, 1, 2, 2, 3]))]
         post = [rand_post_el(rng, len(flow)) for _ in range(rng.choice([0, 0, 1, 1, 2]))]
-        yield {"k": "chain", "pre": pre, "acc": rng.choice(ACCS), "post": post, "flow": flow}
+        acc = rng.choice(ACCS)
+        if rng.random() < 0.12:
+            # any Python object is a value: some falsy / None data in the flow (for accumulators
+            # that take every value)
+            acc = rng.choice([["store", 1], ["store", 0], ["fccount", "c"], ["listacc"],
+                              ["dictacc"]])
+            for j in range(len(flow)):
+                if rng.random() < 0.4:
+                    special = rng.choice([None, False, "", 0, 0.0])
+                    if isinstance(flow[j], list):
+                        flow[j] = [special, flow[j][1]]
+                    else:
+                        flow[j] = special
+        yield {"k": "chain", "pre": pre, "acc": acc, "post": post, "flow": flow}
 
 
 def mkvec(v):
@@ -180,6 +217,10 @@ def build_acc(r):
         return [lena.structures.Histogram([-4, 0, 2, 4, 8, 30])]
     if k == "groupby":
         return [lena.flow.GroupBy()]
+    if k == "listacc":
+        return [ListAcc()]
+    if k == "dictacc":
+        return [DictAcc()]
     return [gen.build(r)]
 
 
@@ -248,6 +289,20 @@ def drivers(r, obs):
             return lena.core.Split([lena.core.FillComputeSeq(*(pre + [acc] + post))],
                                    bufsize=b, copy_buf=False).run(iter(flow()))
         res.append(("split-run", outcome(d_split2)))
+    if not r["pre"] and not r["post"] and len(build_acc(r["acc"])) == 1:
+        # the accumulator given bare (not in a tuple) as the branch
+        for b in bufsizes:
+            def d_bare(b=b):
+                _, acc, _ = build_chain(r)
+                return lena.core.Split([acc], bufsize=b).run(flow())
+            res.append(("split-run-bare-accumulator", outcome(d_bare)))
+
+        def d_bare2():
+            _, acc, _ = build_chain(r)
+            got = lena.core.Split([(gen.Tag("B"),), acc], bufsize=1).run(flow())
+            return (v for v in got if not (isinstance(v, tuple) and v and v[0] == "B"))
+        res.append(("split-run-bare-accumulator", outcome(d_bare2)))
+
     # the chain beside another branch (its buffer is then a deep copy)
     def d_split3():
         pre, acc, post = build_chain(r)
@@ -1018,3 +1073,6 @@ def run_case(r, obs):
 
 
 RULE += (' Pre-elements include Filter(Selector(raising predicate, raise_on_error=False)); the SourceEl column of the adapter matrix asks the source twice.')
+RULE += (' Accumulators also include user accumulators built on list and on dict (iterable '
+         'objects), every accumulator is also given bare as a Split branch; flows also carry '
+         'None / False / "" / 0 / 0.0 as data.')
